@@ -4,6 +4,7 @@
 //   record out=<trace> scen=<leg|det|glob|full> seed=<n> first=<k> runs=<n> [key=value generator switches]
 //   record out=<trace> replay=<file with one Reset line> scen=...      (re-run one recorded instance)
 #include <cstring>
+#include <functional>
 #include <iostream>
 #include <map>
 #include <sstream>
@@ -12,6 +13,7 @@
 #include "place_detailed/incr_net_model.hpp"
 #include "place_global/density_grid.hpp"
 #include "place_detailed/place_detailed.hpp"
+#include "place_detailed/legalizer.hpp"
 #include "project.hpp"
 #include "trace.hpp"
 
@@ -178,6 +180,37 @@ static void scenario(const std::string &scen, int run, Circuit base, const Coloq
       e.set("row", Value::object().set("x0", row.minX).set("x1", row.maxX).set("y0", row.minY).set("y1", row.maxY).set("o", vp::orientName(row.orientation)));
       e.set("obs", obs).set("segs", segs).set("total", (long long)all.size()).set("nrows", (long long)base.rows().size());
       vt::emit(e);
+    }
+    // the consumers of the free space must see exactly that space (in their own order)
+    auto rowsJson = [&](const std::vector<Row> &rows) {
+      Value a = Value::array();
+      for (const Row &f : rows)
+        a.push(Value::object().set("x0", f.minX).set("x1", f.maxX).set("y0", f.minY).set("y1", f.maxY).set("o", vp::orientName(f.orientation)));
+      return a;
+    };
+    auto useEv = [&](const char *kind, const Circuit &cc, const std::function<std::vector<Row>()> &get) {
+      Value e = vt::ev("FreeUse");
+      std::vector<Row> rows;
+      std::string threw;
+      try {
+        rows = get();
+      } catch (std::exception &ex) {
+        threw = ex.what();
+      }
+      e.set("run", run).set("kind", kind).set("circ", vp::circuitToJson(cc)).set("rows", rowsJson(rows)).set("threw", threw);
+      vt::emit(e);
+    };
+    useEv("circuit", base, [&] { return base.computeRows(); });
+    useEv("legalizer", base, [&] { return Legalizer::fromIspdCircuit(base).rows(); });
+    {
+      Circuit leg = base;
+      bool ok = true;
+      try {
+        leg.legalize(p);
+      } catch (std::exception &) {
+        ok = false;
+      }
+      if (ok) useEv("detailed", leg, [&] { return DetailedPlacement::fromIspdCircuit(leg).rows(); });
     }
   } else if (scen == "expand") {
     // C18: cell expansion to a target density / by per-cell factors / expansion factors from a congestion map.
